@@ -31,15 +31,11 @@ def cases(seed, tier):
     return [{"kind": "gen", "seed": seed * 1_000_003 + 17001 + i, "force": FORCES[i % len(FORCES)], "n_params": 1, "budget": 4000, "jit_filter": i % 2 == 1} for i in range(n)]
 
 
-def run_case(case):
-    I = impl()
+def _check_spec(I, mj, case, tag):
     np = I.np
     from lcm.input_processing import process_model
     from lcm.state_space import create_state_choice_space
 
-    mj, meta, Ps, r = materialise_case(case)
-    info = {"mj": mj, "meta": meta}
-    out = base_out(info, case)
     vs = []
     lay = model_layout(mj)
     G = dict(mj["states"] + mj["choices"])
@@ -47,8 +43,7 @@ def run_case(case):
     try:
         pm = process_model(build_model(mj))
     except Exception as e:  # noqa: BLE001
-        out["violations"].append({"clause": "the specification is processed", "detail": f"{impl_site(e)}: {str(e)[:200]}", "key": "C17:process"})
-        return out
+        return 0, [{"clause": "the specification is processed", "detail": f"{tag}{impl_site(e)}: {str(e)[:200]}"}]
     evals = 0
     for t in range(T):
         L = lay[t]
@@ -58,7 +53,7 @@ def run_case(case):
             vs.append({"clause": "the state-choice space is created", "detail": f"period {t}: {impl_site(e)}: {str(e)[:200]}"})
             break
         evals += 1
-        where = f"period {t} (restricted states {L['sparse_states']}, restricted choices {L['sparse_choices']})"
+        where = f"{tag}period {t} (restricted states {L['sparse_states']}, restricted choices {L['sparse_choices']})"
         sparse_names = L["sparse_states"] + L["sparse_choices"]
         if list(sc.sparse_vars) != sparse_names:
             vs.append({"clause": "restricted variables in canonical order", "detail": f"{where}: implementation {list(sc.sparse_vars)}"})
@@ -113,6 +108,33 @@ def run_case(case):
         if L["sparse_states"] and (len(si.indexer_infos) != 1 or list(si.indexer_infos[0].axis_names) != L["sparse_states"]):
             vs.append({"clause": "SpaceInfo indexer info", "detail": f"{where}: {si.indexer_infos}"})
             break
+    return evals, vs
+
+
+def run_case(case):
+    I = impl()
+    np = I.np
+    from lcm.input_processing import process_model
+    from lcm.state_space import create_state_choice_space
+
+    mj, meta, Ps, r = materialise_case(case)
+    info = {"mj": mj, "meta": meta}
+    out = base_out(info, case)
+    vs = []
+    lay = model_layout(mj)
+    evals = 0
+    # the specification itself, then - in the same process and with the very same function objects - the specification with
+    # the declaration order of states and of choices reversed (another canonical order, same names, same sizes)
+    variants = [("", mj)]
+    if len(mj["states"]) + len(mj["choices"]) > 2:
+        variants.append(("declaration order reversed: ", dict(mj, states=list(reversed(mj["states"])), choices=list(reversed(mj["choices"])))))
+    for tag, mjv in variants:
+        n, v1 = _check_spec(I, mjv, case, tag)
+        evals += n
+        vs.extend(v1)
+        if v1:
+            break
+    out["hist"]["variants"] = len(variants)
     out["evals"] = evals
     out["hist"]["excluded_states_some_period"] = int(any(-1 in L["indexer"]["data"] for L in lay))
     out["hist"][f"jit_filter={case.get('jit_filter', False)}"] = 1
